@@ -103,7 +103,11 @@ Proof.
   intro H. unfold dec_col. tok_cases r r' H.
   destruct T as [<- S1]. destruct t; simpl; try (right; reflexivity).
   destruct b.
-  - destruct k; simpl; try (right; reflexivity). apply dec_vals_sim. exact S1.
+  - destruct k; simpl; try (right; reflexivity).
+    + apply dec_vals_sim. exact S1.
+    + tok_cases r0 r1 S1.
+      destruct T as [<- S2]. destruct t; simpl; try (right; reflexivity).
+      right. split; [reflexivity|exact S2].
   - tok_cases r0 r1 S1.
     destruct T as [<- S2]. destruct t; simpl; try (right; reflexivity).
     right. destruct (fix_collen cf && negb (Nat.eqb (length data) (length view))); simpl; [reflexivity|].
